@@ -2,9 +2,9 @@
 import json, vlib, pmcheck
 def run(ctx, V):
     import C06
-    pmcheck.standard_run(ctx, V, ["alive", "c02", "protocol", "wedge"], extract=["Extract/ExClient.vo", "Extract/ExEnqueue.vo"], n_quick=500)
+    pmcheck.standard_run(ctx, V, ["alive", "c02", "protocol", "wedge"], extract=["Extract/ExClient.vo", "Extract/ExEnqueue.vo"], n_quick=500, n_thorough=8000)
     # the reply folding (_act_finish, reply_power, 308/309 lines) and the pre-check (dev_check_actions) are tied exactly by R-CLIENT
-    C06.correspond(ctx, V, n=300 if ctx.tier == "quick" else 6000)
+    C06.correspond(ctx, V, n=300 if ctx.tier == "quick" else 4000)
 def replay(ctx, V, path):
     import C06
     return C06.replay(ctx, V, path)
